@@ -17,8 +17,8 @@ from ginsim import probes, shrink, world
 
 ID = 'C13'
 LEVEL = 'exploration'
-QUICK_RUNS = 2500
-THOROUGH_RUNS = 50000
+QUICK_RUNS = 12000
+THOROUGH_RUNS = 300000
 SHRINK_BUDGET = 200
 RULE = ('run i draws from Random("<seed>/C13/<i>") a history of 2-10 '
         'registrations over 15 callable / class shapes (function, builtin, '
